@@ -6,7 +6,7 @@ open LokiModel.Fir LokiModel.C37 Sexp
   pragmas dropped), or `(result excluded)` outside the flat class of `LokiModel.C37.Model`;
 * `(scc …)` → `(result oracle-only)` (whole call trees and pipelines: direct oracle only). -/
 def step : Sexp → Option Sexp
-  | list [atom "flat", list [jl, lo, hi, size], unit] => do
+  | list (atom "flat" :: list [jl, lo, hi, size] :: unit :: _) => do
       let cfg : Cfg := { jl := ← jl.toStr?, lo := ← lo.toStr?, hi := ← hi.toStr?, size := ← size.toStr? }
       let u ← decUnit unit
       pure (list [atom "result", if flatKernel cfg u then encUnit (sccFlat cfg u) else atom "excluded"])
